@@ -190,6 +190,35 @@ def rule_y4(chk: Check, ix: Index):
     chk.floor("Y4-coherent-span", 8)
 
 
+def rule_y4b(chk: Check, ir):
+    """Positions written out at a raise site in a grammar action: each (line, column) pair is the start or the end of one
+    object — a start line combined with an end column (or two objects) points outside the reported line."""
+    n = 0
+    for rule, key, a in actions.all_alts(ir.rules):
+        if a.action is None:
+            continue
+        for call in ast.walk(a.action):
+            if not (isinstance(call, ast.Call) and isinstance(call.func, ast.Attribute) and call.func.attr.startswith("raise_")):
+                continue
+            tuples = [x for x in call.args[1:] if isinstance(x, ast.Tuple)] + [k.value for k in call.keywords if isinstance(k.value, ast.Tuple)]
+            for i, t in enumerate(tuples):
+                n += 1
+                chk.count("Y4-coherent-span")
+                ps = _pos_source(t)
+                k2 = f"{key}:{call.func.attr}:{norm_stmt(t)}"
+                if ps is None:
+                    chk.fail("Y4-coherent-span", k2, str(a.pos),
+                             f"position `{norm_stmt(t)}` is not the (line, column) of one end of one object (arithmetic on a column "
+                             f"or a mix of attributes): it can point outside the reported line")
+                    continue
+                obj, kind = ps
+                want = "start" if i == 0 else "end"
+                chk.require(not kind.startswith("mixed") and (kind == want or (want == "end" and kind == "start")), "Y4-coherent-span", k2, str(a.pos),
+                            f"argument {i + 1} of {call.func.attr} is taken from {obj} ({kind}); line and column must come from the same "
+                            f"end of the same object and the first position must be a start")
+    chk.units["explicit_position_tuples_at_raise_sites"] = n
+
+
 def rule_y5(chk: Check, ir):
     """Range errors are raised with the earlier item first (end not before start)."""
     for rule, key, a in actions.all_alts(ir.rules):
@@ -226,5 +255,6 @@ def run(chk: Check):
     rule_y3(chk, ix)
     rule_y3b(chk, ix)
     rule_y4(chk, ix)
+    rule_y4b(chk, repo.ir_x())
     rule_y5(chk, repo.ir_x())
     chk.units["functions"] = len(ix.funcs)
